@@ -136,7 +136,7 @@ func sizeClassOf(n int) string {
 
 func runC01(c *Ctx) {
 	r := c.R
-	r.SetRule("body size ladder (0,1,2,15..17,511..513,4095..4097,32767..32769,65535..65537, 1 MiB-1/1 MiB/1 MiB+1, thorough also 3 MiB+7, plus random sizes) x byte pattern (zeros, 0xFF, all 256 values, CR/LF/NUL-heavy, random) x key class (plain, nested, needs-escaping, UTF-8, long, dotted) x metadata class x upload path (PUT, browser-form POST, copy, Go PutObject) on all six backends with integrity checking on and off; every upload is read back by GET, HEAD, List V1/V2 and the Go API, and every third one again after ten bystander requests (refused bucket delete/create, bucket sub-resource reads, reads and deletes of a never-written sibling key); overwrites go longer->shorter; distinct = (backend, integrity, upload path, size, pattern, key class, metadata class) with a body different from the key's previous body")
+	r.SetRule("body size ladder (0,1,2,15..17,511..513,4095..4097,32767..32769,65535..65537, 1 MiB-1/1 MiB/1 MiB+1, thorough also 3 MiB+7, plus random sizes) x byte pattern (zeros, 0xFF, all 256 values, CR/LF/NUL-heavy, random) x key class (plain, nested, needs-escaping, UTF-8, long, dotted) x metadata class x upload path (PUT, browser-form POST, copy, Go PutObject) on all six backends with integrity checking on and off; every upload is read back by GET, HEAD, List V1/V2 and the Go API, and every third one again after ten bystander requests (refused bucket delete/create, bucket sub-resource reads, reads and deletes of a never-written sibling key); overwrites go longer->shorter, and every fourth PUT / Go PutObject is repeated with the same bytes and other metadata; distinct = (backend, integrity, upload path, size, pattern, key class, metadata class) with a body different from the key's previous body")
 	sizes := append([]int(nil), gen.SizeLadder...)
 	sizes = append(sizes, 1<<20-1, 1<<20, 1<<20+1)
 	if r.Thorough() {
@@ -352,6 +352,32 @@ func runC01(c *Ctx) {
 				c01CheckRead(r, j.kind, "get-after-bystanders", j.path, key, exp, g2.Status, g2.Body, true, g2.ETag(), g2.Header.Get("Content-Length"), g2.Header, sc)
 				h2 := s.Head(bucket, key)
 				c01CheckRead(r, j.kind, "head-after-bystanders", j.path, key, exp, h2.Status, h2.Body, false, h2.ETag(), h2.Header.Get("Content-Length"), h2.Header, sc)
+			}
+			// the same bytes uploaded again with other metadata: the new headers are an acknowledged
+			// write of their own (a backend that recognises unchanged content must still store them)
+			if (j.path == "put" || j.path == "go-put") && caseNo%4 == 1 {
+				meta2 := c01Meta(c01MetaClasses[(caseNo/4)%len(c01MetaClasses)], caseNo+500000)
+				var up2 *drv.Resp
+				if j.path == "put" {
+					up2 = s.Put(bucket, key, body, meta2.Clone())
+				} else {
+					m := map[string]string{}
+					for k, v := range meta2 {
+						m[k] = v[0]
+					}
+					up2 = &drv.Resp{Status: 200}
+					if _, perr := s.Backend.PutObject(bucket, key, m, bytes.NewReader(body), int64(len(body))); perr != nil {
+						up2 = &drv.Resp{Status: 500, Body: []byte(perr.Error())}
+					}
+				}
+				if up2.Status == 200 && len(meta2) > 0 {
+					r.Count("same_bytes_reuploads", 1)
+					exp2 := c01Expect{body: body, meta: meta2}
+					g3 := s.Get(bucket, key)
+					c01CheckRead(r, j.kind, "get-after-same-bytes-reupload", j.path, key, exp2, g3.Status, g3.Body, true, g3.ETag(), g3.Header.Get("Content-Length"), g3.Header, sc)
+					h3 := s.Head(bucket, key)
+					c01CheckRead(r, j.kind, "head-after-same-bytes-reupload", j.path, key, exp2, h3.Status, h3.Body, false, h3.ETag(), h3.Header.Get("Content-Length"), h3.Header, sc)
+				}
 			}
 			if r.WantSample() && size > 0 && size < 20 {
 				r.Sample(map[string]interface{}{"backend": j.kind, "integrity": !j.noIntegrity, "upload_path": j.path, "size": size, "pattern": gen.PatNames[pattern], "key": key, "metadata": meta})
